@@ -197,3 +197,52 @@ func c01SharedHandles(e *Env) {
 		}
 	}
 }
+
+// c01LoaderAfterMiss: a name that no loader had is looked up again after a loader that has it is registered (and after
+// it is registered as a string): nothing remembers the miss.
+func c01LoaderAfterMiss(e *Env) {
+	r := e.Rep
+	for _, how := range []string{"RegisterLoader", "RegisterString", "second-loader", "SetTemplate"} {
+		for _, page := range []string{"A{% include 'footer' ignore missing %}B", "A{% include 'footer' ignore missing %}{% include 'footer' ignore missing %}B"} {
+			res := guarded(func() (string, error) {
+				eng := twig.New()
+				mem := twig.NewArrayLoader(map[string]string{"page": page})
+				eng.RegisterLoader(mem)
+				for k := 0; k < 3; k++ {
+					if out, err := eng.Render("page", nil); err != nil || out != "AB" {
+						return "", fmt.Errorf("before: %q %v", out, err)
+					}
+				}
+				if _, err := eng.Render("footer", nil); err == nil {
+					return "", fmt.Errorf("footer exists before it was added")
+				}
+				switch how {
+				case "RegisterLoader", "second-loader":
+					eng.RegisterLoader(twig.NewArrayLoader(map[string]string{"footer": "-F-"}))
+				case "RegisterString":
+					if err := eng.RegisterString("footer", "-F-"); err != nil {
+						return "", err
+					}
+				case "SetTemplate":
+					mem.SetTemplate("footer", "-F-")
+				}
+				if how == "second-loader" {
+					eng.RegisterLoader(twig.NewArrayLoader(map[string]string{"other": "x"}))
+				}
+				if out, err := eng.Render("footer", nil); err != nil || out != "-F-" {
+					return "", fmt.Errorf("MISS-REMEMBERED: Render(footer) after %s gives %q %v", how, out, err)
+				}
+				return "ok", nil
+			})
+			r.Seen("loader-after-miss:"+how+page, true)
+			r.Hit("loader-after-miss")
+			if res.Err != nil || res.Class != "" {
+				if r.Violate(Violation{Key: "miss-remembered", What: fmt.Sprintf("a template missing at first and supplied later through %s: %v %s", how, res.Err, res.Class),
+					Broken: "theorem C01_history_independence / C15_serves_expected (a failed lookup leaves no trace; implementation-only oracle)",
+					Replay: map[string]any{"kind": "loader-after-miss", "how": how, "page": page, "err": fmt.Sprint(res.Err)}}) {
+					return
+				}
+			}
+		}
+	}
+}
